@@ -705,7 +705,7 @@ pub fn judge(p: &Program, ex: &Execution, drain: bool) -> Judgement {
         let q = (total + 1).min(u64::MAX as u128) as u64;
         drain_requested = q;
         let taker = OrderId::from_u64(0xD7A1);
-        match crate::hooks::with_step_budget(20_000, || level.match_order(q, taker, &ex.generator)) {
+        match crate::hooks::with_step_budget(20_000 + 8 * p.churn as u64 + 40 * p.burst as u64, || level.match_order(q, taker, &ex.generator)) {
             Ok((r, _)) => {
                 drained = true;
                 let executed: u128 = r.transactions.as_vec().iter().map(|t| t.quantity as u128).sum();
